@@ -32,4 +32,12 @@ def proj (id : ForkId) : List GEv → List Ev
   | .nodeDone n :: r => .nodeDone n :: proj id r
   | .fork f e :: r => if f == id then e :: proj id r else proj id r
 
+/-- ONE file system below all the forks: after a global history, an entry of any
+fork is still there unless it lies at or below a path some fork — its owner or
+any other — has removed (`os.RemoveAll` takes a path with everything below it,
+whoever put it there) -/
+def sharedDisk (fs : List PFork) (evs : List GEv) : List DiskEnt :=
+  (fs.flatMap fun f => f.st.disk).filter fun d =>
+    !(fs.any fun f => (run f.cfg f.st (proj f.id evs)).removed.any fun g => pathIsInside d.path g.path)
+
 end Martian.Vdr
